@@ -12,7 +12,8 @@ open LA
 def engines : List (String × Engine) := [
   ("lnk", LA.Lnk.engine),
   ("rda", LA.RA.engine),
-  ("cw", LA.WC.engine)
+  ("cw", LA.WC.engine),
+  ("det", LA.WC.engine)
 ]
 
 partial def loop (e : Engine) (h : IO.FS.Stream) (out : IO.FS.Stream) (s : e.σ) : IO Unit := do
